@@ -84,7 +84,7 @@ impl Property for C15 {
             "all binary strings of length <=10 on all 20 types; all hex strings of length <=2".into(),
         ]
     }
-    fn enumerate(&self, _tier: Tier, sh: &mut Shard, f: &mut dyn FnMut(C15Case) -> bool) {
+    fn enumerate(&self, tier: Tier, sh: &mut Shard, f: &mut dyn FnMut(C15Case) -> bool) {
         for ty in 0..NT {
             for hex in [false, true] {
                 let per = if hex { 4 } else { 1 };
@@ -107,6 +107,32 @@ impl Property for C15 {
                         }
                     }
                 }
+            }
+        }
+        // parse(format(v)) for long vectors: around powers of two up to 2^15 and every length of
+        // the dense sweep
+        for t in [TID_D, TID_A] {
+            let mut ns: Vec<usize> = vec![];
+            for c in [1024usize, 2048, 4096, 8192, 12288, 16384, 32768] {
+                ns.extend((c - 5)..=(c + 5));
+            }
+            for n in ns {
+                if !sh.mine() {
+                    continue;
+                }
+                for a in [Bits::ones(n), dense_value(n), long_values(n)[5].clone()] {
+                    if !f(C15Case::RoundTrip { a: Operand::canon(t, a) }) {
+                        return;
+                    }
+                }
+            }
+        }
+        for (t, n) in dense_lengths(tier) {
+            if !sh.mine() {
+                continue;
+            }
+            if !f(C15Case::RoundTrip { a: Operand::canon(t, dense_value(n)) }) {
+                return;
             }
         }
         for ty in 0..NT {
@@ -193,7 +219,29 @@ impl Property for C15 {
                 let what = format!("parse(format):{}", kind_of(a.ty));
                 let za = build_checked(a, "subject")?;
                 let n = a.len();
-                let (sb, sx, sxx) = z_match!(&za, v => (format!("{:b}", v), format!("{:x}", v), format!("{:X}", v)));
+                // the strings to parse are produced AFTER a formatting call on the same thread has
+                // failed part-way (a writer that runs out of room): a formatter must not carry
+                // state from one call into the next
+                struct Tiny(usize);
+                impl std::fmt::Write for Tiny {
+                    fn write_str(&mut self, s: &str) -> std::fmt::Result {
+                        if s.len() > self.0 {
+                            return Err(std::fmt::Error);
+                        }
+                        self.0 -= s.len();
+                        Ok(())
+                    }
+                }
+                let (sb, sx, sxx) = z_match!(&za, v => {
+                    use std::fmt::Write;
+                    let _ = write!(Tiny(1), "{:b}", v);
+                    let sb = format!("{:b}", v);
+                    let _ = write!(Tiny(0), "{:x}", v);
+                    let sx = format!("{:x}", v);
+                    let _ = write!(Tiny(2), "{:#X}", v);
+                    let sxx = format!("{:X}", v);
+                    (sb, sx, sxx)
+                });
                 for (s, hex, name) in [(&sb, false, "{:b}"), (&sx, true, "{:x}"), (&sxx, true, "{:X}")] {
                     let per = if hex { 4 } else { 1 };
                     let z = match parse_call(a.ty, s, hex) {
